@@ -98,9 +98,68 @@ let () =
                 if not is_err then Viol "ReadData reported success although no complete wanted message was received"
                 else if clean && not clean_allowed then Viol "ReadData: a cut message/frame ended in a clean io.EOF"
                 else Pass true))
+       | OProtocol _ when not cut_kind ->
+         (* frame k breaks a header rule: what was complete before it is handled as usual; if no
+            wanted message (or close) was complete before frame k the call must fail with the
+            protocol error, having answered exactly the control frames before frame k; nothing of
+            frame k or later is returned or answered *)
+         (match frames_of (List.concat log) with
+          | None -> Viol "ReadData: bytes written are not whole reply frames"
+          | Some rf ->
+            let reply_ok (ex : expect_reply) (f : pframe) =
+              reply_frame_ok state f && int_of_n f.pf_header.h_op = ex.e_op &&
+              (if ex.e_any_proto then
+                 (let (rc, _) = parse_close (pf_unmasked f) in let rc = int_of_n rc in rc = 1002 || rc = 1007)
+               else pf_unmasked f = ex.e_payload) in
+            let replies_ok = List.length rf = List.length exp_replies && List.for_all2 reply_ok exp_replies rf in
+            let res_class = (match String.split_on_char ':' res with "proto" :: _ -> "proto" | _ -> res) in
+            let is_proto_err = String.length res >= 13 && String.sub res 0 13 = "err:protocol:" in
+            if not replies_ok then Viol "ReadData on a stream with a rule-breaking frame: replies are not exactly those for the control frames before it"
+            else (match exp_res with
+              | Some er -> if res_class <> er then Viol "ReadData returned the wrong message/result before a rule-breaking frame" else Pass true
+              | None ->
+                if not is_proto_err then Viol ("ReadData did not report the protocol error of the rule-breaking frame: " ^ res)
+                else begin
+                  let data = wire fs in
+                  let s = K_reader.mk_src data spec tail in
+                  let wantn = ni (match want with "text" -> 1 | "binary" -> 2 | _ -> 3) in
+                  let masks = K_writer.masks_of (List.concat log) in
+                  let fuel = nat_of_int (2 * List.length data + 4 * List.length fs + 50) in
+                  let (mres, mlog) = ReadData.read_data_call fuel wantn state s masks in
+                  let mres_s = (match mres with
+                    | ReadData.RDErr e -> "err:" ^ K_reader.string_of_rerror e
+                    | _ -> "notanerror") in
+                  if mres_s <> res then Diff ("model of readData returns " ^ mres_s)
+                  else if List.concat mlog <> List.concat log then Diff "model of readData writes different replies"
+                  else Pass true
+                end))
        | _ -> Pass false)
     | _ -> Diff "malformed line") in
   register "RX" (rx false); register "RXC" (rx true)
+
+let () =
+  register "FRP" (fun i o -> match i, o with
+    | [_; _; _; _], [a; b; fresh_ok] ->
+      if fresh_ok <> "1" then Viol "a fresh compression reader does not return the message that was compressed"
+      else if a <> b then Viol "compression reader reused through Reset after an abandoned message differs from a fresh one"
+      else Pass true
+    | _ -> Diff "malformed line")
+
+let () =
+  register "C19T" (fun i o -> match i, o with
+    | [_; _; _], [mism; races; first] ->
+      if int_of_string races > 0 then Viol (Printf.sprintf "the race detector reported %s data race(s) between TLS sessions using the default configuration" races)
+      else if int_of_string mism > 0 then Viol (Printf.sprintf "%s TLS session(s) announced another session's server name (first: %s)" mism first)
+      else Pass true
+    | _ -> Diff "malformed line")
+
+let () =
+  register "C19P" (fun i o -> match i, o with
+    | [_; _], [bad; races; first] ->
+      if int_of_string races > 0 then Viol (Printf.sprintf "the race detector reported %s data race(s) between sessions following a failed one" races)
+      else if int_of_string bad > 0 then Viol (Printf.sprintf "%s overlapping session(s) after a failed one did not see the result they see alone (first: %s)" bad first)
+      else Pass true
+    | _ -> Diff "malformed line")
 
 let () =
   register "C14R" (fun i o -> match i, o with
@@ -162,7 +221,7 @@ let () =
       else Pass true
     | _ -> Diff "malformed line");
   register "WRF" (fun i o -> match i, o with
-    | [cfg; n; k], [m; _err; buffered; ferr; log] ->
+    | (cfg :: n :: k :: _), [m; _err; buffered; ferr; log] ->
       let mi = int_of_string m in
       let data = K_writer.pat_bytes (int_of_string n) 3 in
       let accepted = K_reader.take_n mi data in
@@ -174,7 +233,7 @@ let () =
           let payload = List.concat (List.map pf_unmasked fs) in
           let rec is_prefix a b = match a, b with [], _ -> true | x :: a', y :: b' -> x = y && is_prefix a' b' | _ -> false in
           if not (is_prefix payload accepted) then Viol "ReadFrom sent bytes that are not the accepted ones"
-          else if int_of_string buffered > 0 && ferr = "nil" && payload <> accepted then
+          else if ferr = "nil" && payload <> accepted then
             (* the source failed with bytes still buffered: a successful Flush must send them *)
             Viol "bytes accepted by ReadFrom before its source failed were not sent by the following successful Flush"
           else if int_of_string buffered > 0 && ferr = "nil" && not (List.nth fs (List.length fs - 1)).pf_header.h_fin then
